@@ -144,6 +144,68 @@ func TestC21Concurrent(t *testing.T) {
 				runtime.Gosched()
 			}
 		}
+		// second phase, same readers still running: checkpoints.  The finality engine saves a batch of
+		// checkpoints whenever a vote changes their status; GetCheckpoint is read without the engine's lock
+		// (Chain.GetValidator, block validation).  After SaveCheckpoints returned, every read shows the new status.
+		cps := make([]*state.Checkpoint, 6)
+		for i := range cps {
+			cps[i] = &state.Checkpoint{Height: uint64(4 * (i + 1)), Hash: hashes[4*(i+1)], ParentHash: hashes[4*i], Timestamp: uint64(i), Status: state.Unjustified,
+				Votes: map[string]uint64{}, Rewards: map[string]uint64{}}
+		}
+		var cpReads int64
+		cpStop := make(chan struct{})
+		var cwg sync.WaitGroup
+		for g := 0; g < 4; g++ {
+			gr := rng.Fork()
+			cwg.Add(1)
+			go func() {
+				defer cwg.Done()
+				for {
+					select {
+					case <-cpStop:
+						return
+					default:
+					}
+					h := cps[gr.Intn(len(cps))].Hash
+					st.GetCheckpoint(&h)
+					atomic.AddInt64(&cpReads, 1)
+				}
+			}()
+		}
+		for round := 0; round < 60; round++ {
+			for _, cp := range cps {
+				cp.Status = state.CheckpointStatus(1 + (round+int(cp.Height))%3)
+				cp.Timestamp = uint64(round)
+			}
+			// batches of one to three checkpoints, as the engine saves them
+			for i := 0; i < len(cps); {
+				k := 1 + rng.Intn(3)
+				if i+k > len(cps) {
+					k = len(cps) - i
+				}
+				if err := st.SaveCheckpoints(cps[i : i+k]); err != nil {
+					report("concurrent:writer:save-checkpoints-failed", err.Error())
+				}
+				for _, cp := range cps[i : i+k] {
+					h := cp.Hash
+					got, err := st.GetCheckpoint(&h)
+					if err != nil || got.Status != cp.Status || got.Timestamp != cp.Timestamp {
+						report("concurrent:writer:checkpoint-stale-after-own-write", fmt.Sprintf("round %d height %d: err=%v", round, cp.Height, err))
+					}
+				}
+				i += k
+			}
+		}
+		close(cpStop)
+		cwg.Wait()
+		for _, cp := range cps { // final state, no concurrency
+			h := cp.Hash
+			if got, err := st.GetCheckpoint(&h); err != nil || got.Status != cp.Status || got.Timestamp != cp.Timestamp {
+				report("concurrent:final:checkpoint-stale", fmt.Sprintf("height %d: err=%v", cp.Height, err))
+			}
+		}
+		c.Count("concurrent_checkpoint_reads", cpReads)
+		c.Count("concurrent_checkpoint_batches_written", 60)
 		close(stop)
 		wg.Wait()
 		c.Eval(int64(n))
@@ -166,4 +228,5 @@ func TestC21Concurrent(t *testing.T) {
 	r.Floor("concurrent_blocks_written_and_read_back", 1000)
 	r.Floor("concurrent_reads", 10000)
 	r.Floor("concurrent_reads_before_the_write", 100)
+	r.Floor("concurrent_checkpoint_reads", 20000)
 }
